@@ -839,6 +839,7 @@ func (gs *guardState) transfer(s factSet, n ast.Node) {
 			for i, l := range n.Lhs {
 				if id, ok := l.(*ast.Ident); ok {
 					gs.recordImp(s, id, n.Rhs[i])
+					gs.recordAlias(s, id, n.Rhs[i])
 				}
 			}
 		}
@@ -889,9 +890,51 @@ func (gs *guardState) recordImp(s factSet, id *ast.Ident, rhs ast.Expr) {
 	}
 }
 
+// recordAlias: `x := <selector path>` makes x a snapshot of the path; the alias fact dies as soon as x or
+// any prefix of the path is written, so a nil-test of x made while it is alive is a nil-test of the path.
+func (gs *guardState) recordAlias(s factSet, id *ast.Ident, rhs ast.Expr) {
+	if id.Name == "_" {
+		return
+	}
+	if _, isCall := unparen(rhs).(*ast.CallExpr); isCall {
+		return
+	}
+	if _, isID := unparen(rhs).(*ast.Ident); isID {
+		return
+	}
+	pth, ok := selectorPath(gs.info, rhs)
+	if !ok {
+		return
+	}
+	al := "AL:" + id.Name + "=" + pth
+	ps := accessPaths(gs.info, rhs)
+	if qp, ok := qualPath(gs.info, id); ok {
+		ps = append(ps, qp)
+	}
+	gs.paths[al] = ps
+	s[al] = struct{}{}
+}
+
 // expandMarkers replaces BT:/BF: markers by the implications recorded in s.
 func (gs *guardState) expandMarkers(s factSet, facts []string) []string {
 	var out []string
+	// nil-facts about a local that is a live snapshot of a path hold for the path as well
+	for _, f := range facts {
+		for _, kind := range []string{"N:", "NN:"} {
+			if strings.HasPrefix(f, kind) && !strings.ContainsAny(f[len(kind):], " .(") {
+				prefix := "AL:" + f[len(kind):] + "="
+				for k := range s {
+					if strings.HasPrefix(k, prefix) {
+						g := kind + k[len(prefix):]
+						if _, ok := gs.paths[g]; !ok {
+							gs.paths[g] = gs.paths[k]
+						}
+						out = append(out, g)
+					}
+				}
+			}
+		}
+	}
 	for _, f := range facts {
 		if strings.HasPrefix(f, "BT:") || strings.HasPrefix(f, "BF:") {
 			name := f[3:]
